@@ -32,7 +32,29 @@ func buildOverlay(repo, hdir string) (map[string][]byte, map[string]string, erro
 	return ov, paths, err
 }
 
+func runExtra(ld *interp.Loaded, name string, args []string, jobs int) (map[string]any, []string, error) {
+	return nil, nil, fmt.Errorf("unknown extra job %q", name)
+}
+
 func main() {
+	if len(os.Args) > 1 && os.Args[1] == "check" {
+		fs := flag.NewFlagSet("check", flag.ExitOnError)
+		repo := fs.String("repo", "/repo", "repository under test")
+		hdir := fs.String("harness", verifRoot()+"/harness", "harness overlay directory")
+		tier := fs.String("tier", "", "quick|thorough")
+		j := fs.Int("j", runtime.NumCPU(), "workers")
+		prop := os.Args[2]
+		fs.Parse(os.Args[3:])
+		if *tier == "" {
+			*tier = os.Getenv("VERIF_TIER")
+		}
+		if *tier == "" {
+			*tier = "quick"
+		}
+		var seed int64
+		fmt.Sscan(os.Getenv("VERIF_SEED"), &seed)
+		os.Exit(runCheck(prop, *tier, *repo, *hdir, *j, seed))
+	}
 	repo := flag.String("repo", "/repo", "repository under test")
 	hdir := flag.String("harness", "/verif/harness", "harness overlay directory")
 	pkg := flag.String("pkg", "", "package import path of the harness")
@@ -68,6 +90,9 @@ func main() {
 	x, err := interp.RunHarness(ld, *pkg, *fn, cfg, *j)
 	if err != nil {
 		fmt.Fprintln(os.Stderr, "error:", err)
+	}
+	if x == nil {
+		os.Exit(2)
 	}
 	out := map[string]any{
 		"paths": x.Paths, "paths_ok": x.PathsOK, "aborted": x.Aborted, "outside": x.Outside, "reach": x.Reach,
